@@ -5,4 +5,5 @@ package explore
 var vEntries = map[string]interface{}{
 	"VExploreKernel": VExploreKernel,
 	"VExploreTable":  VExploreTable,
+	"VExploreRun":    VExploreRun,
 }
